@@ -35,6 +35,8 @@ func init() {
 			"that every subscriptionUpdater callback enters the resolver only under updater.mu after the done/ctx gate; and that handleTriggerUpdate joins its workers. " +
 			"It does not decide ordering or exactness of the delivered messages (value/ history level).",
 		Mutants: []Mutant{
+			{Name: "filter loop quotes the event value in place (reverts the F32 fix)", File: "v2/pkg/engine/resolve/subscription_filter.go", Rule: "C12-R9", Key: "SkipEvent/loop-invariant-input-reassigned:expected",
+				Old: "\t\t\t\t\tquotedExpected, err = json.Marshal(string(expected))\n", New: "\t\t\t\t\texpected, err = json.Marshal(string(expected))\n\t\t\t\t\tquotedExpected = expected\n"},
 			{Name: "filter loop returns at the first filter error (seeded change C12-22)", File: resolveGo, Rule: "C12-R7", Key: "trigger.filterSubscriptions/filter-loop-visits-every-subscriber",
 				Old: "\t\tif filterErr != nil {\n\t\t\tfilterErrors = append(filterErrors, *filterErr)\n\t\t}\n\t}\n\n\treturn subs, filterErrors\n", New: "\t\tif filterErr != nil {\n\t\t\tfilterErrors = append(filterErrors, *filterErr)\n\t\t\treturn subs, filterErrors\n\t\t}\n\t}\n\n\treturn subs, filterErrors\n"},
 			{Name: "per-connection index entry dropped with the first subscription that ends (seeded change C12-23)", File: resolveGo, Rule: "C12-R8", Key: "Resolver.unregisterSubscriptionLocked/connection-entry-deleted-only-when-empty",
@@ -103,6 +105,7 @@ func runC12(r *fw.Run) {
 	defer c12SyncAPIWaitsForCompletion(r)
 	defer c12FilterErrorsDoNotSilenceOthers(r)
 	defer c12EverySubscriberIsFiltered(r)
+	defer c12LoopInvariantInputs(r)
 	defer c12ConnectionIndexMirrorsRegistration(r)
 	p := r.Prog
 	if p.Named("resolve", "subscriptionState") == nil {
@@ -716,4 +719,98 @@ func identFromIndexOfField(fi *fw.FuncInfo, obj types.Object, pkg, typ, field st
 		return true
 	})
 	return found
+}
+
+// c12LoopInvariantInputs (R9): a filter with several values (`id IN (a, b)`) compares the same event value with each
+// filter value in a loop. The event value is read once, before the loop; it is an input of every iteration. An assignment
+// inside the loop that replaces it by a function of itself (expected = json.Marshal(expected)) compounds from iteration to
+// iteration: the second value is compared with the quoted form, the third with the doubly quoted form — a string field
+// can only ever match the first value, the event is silently dropped for every other match. The rule, for every loop of
+// SubscriptionFieldFilter.SkipEvent and its siblings in subscription_filter.go: a variable declared before the loop that
+// the loop body reads is not assigned inside the loop from an expression that depends on itself (accumulating forms —
+// append, +=, slicing — are not inputs and are exempt).
+func c12LoopInvariantInputs(r *fw.Run) {
+	p := r.Prog
+	r.Rule("C12-R9", "in the subscription filters no loop replaces a loop-invariant input (a variable declared before the loop and compared in every iteration) by a function of itself: every filter value is compared with the same event value")
+	n := 0
+	for _, fi := range p.Funcs("resolve") {
+		if !strings.HasSuffix(p.FileOf(fi.Decl.Pos()), "subscription_filter.go") {
+			continue
+		}
+		info := fi.Info()
+		ord := 0
+		fw.WalkAll(fi.Decl.Body, func(nd ast.Node) bool {
+			var body *ast.BlockStmt
+			switch x := nd.(type) {
+			case *ast.ForStmt:
+				body = x.Body
+			case *ast.RangeStmt:
+				body = x.Body
+			}
+			if body == nil {
+				return true
+			}
+			n++
+			declaredInside := map[types.Object]bool{}
+			fw.WalkAll(body, func(m ast.Node) bool {
+				if id, ok := m.(*ast.Ident); ok {
+					if o := info.Defs[id]; o != nil {
+						declaredInside[o] = true
+					}
+				}
+				return true
+			})
+			fw.WalkAll(body, func(m ast.Node) bool {
+				as, ok := m.(*ast.AssignStmt)
+				if !ok || as.Tok.String() != "=" {
+					return true
+				}
+				for i, l := range as.Lhs {
+					id, isID := l.(*ast.Ident)
+					if !isID {
+						continue
+					}
+					o := info.Uses[id]
+					if o == nil || declaredInside[o] {
+						continue
+					}
+					var rhs ast.Expr
+					if len(as.Rhs) == len(as.Lhs) {
+						rhs = as.Rhs[i]
+					} else if len(as.Rhs) == 1 {
+						rhs = as.Rhs[0]
+					}
+					if rhs == nil {
+						continue
+					}
+					// accumulating forms are exempt
+					switch x := ast.Unparen(rhs).(type) {
+					case *ast.CallExpr:
+						if fw.Builtin(info, x) == "append" {
+							continue
+						}
+					case *ast.SliceExpr, *ast.BinaryExpr:
+						continue
+					}
+					self := false
+					fw.WalkAll(rhs, func(k ast.Node) bool {
+						if rid, isR := k.(*ast.Ident); isR && info.Uses[rid] == o {
+							self = true
+						}
+						return true
+					})
+					if !self {
+						continue
+					}
+					ord++
+					r.Fail("C12-R9", fi.Name()+"/loop-invariant-input-reassigned:"+o.Name()+"#"+itoa(ord), p.Pos(as.Pos()), "no loop-invariant input of a filter loop is replaced by a function of itself",
+						o.Name()+" is declared before the loop, compared in every iteration, and replaced here by a function of itself: the change carries over to the next iteration — the second filter value is compared with the transformed (e.g. JSON-quoted) event value, the third with the doubly transformed one, so an event matching any value but the first is silently dropped")
+				}
+				return true
+			})
+			return true
+		})
+	}
+	r.Pass("C12-R9", "filter-loops-scanned", "-", itoa(n)+" loops of subscription_filter.go examined", n > 0)
+	r.Expect("C12-R9", "loops in subscription_filter.go", n, 1)
 }
